@@ -10,11 +10,13 @@ package c18
 
 import (
 	"fmt"
+	"io"
 	"os"
 	"os/exec"
 	"path/filepath"
 	"strconv"
 	"strings"
+	"syscall"
 	"time"
 
 	"git.metabarcoding.org/obitools/obitools4/obitools4/pkg/obiiter"
@@ -79,6 +81,8 @@ func faultMain(args []string) int {
 	wc := mkCase(seed, sub, idx)
 	sink := wrx.NewSink()
 	sink.OnRefuse = func() { os.Stderr.WriteString("VH-REFUSED\n") }
+	// the kind of error varies with the fault point: generic, disk full, closed pipe, I/O error
+	sink.Err = wrx.Errnos[(int64(idx)+k+int64(len(wrx.Errnos)))%int64(len(wrx.Errnos))]
 	switch fault {
 	case "write":
 		sink.FailAt = k
@@ -238,11 +242,16 @@ func e2eCmds() []e2eCmd {
 		{"json", "obiconvert", []string{"--json-output"}, false},
 		{"csv", "obicsv", []string{"-i", "-s"}, false},
 		{"fasta-gz", "obiconvert", []string{"--fasta-output", "-Z"}, false},
+		// the default output path (format chosen from the first record) and a result without any record
+		{"default", "obiconvert", nil, false},
+		{"default-gz", "obiconvert", []string{"-Z"}, false},
+		{"default-gz-empty-result", "obigrep", []string{"-l", "1000000", "-Z"}, false},
 	}
 }
 
 func runDevFull(c *core.Ctx) {
 	cmds := e2eCmds()
+	cmds = cmds[:len(cmds)-1] // a result without any record writes nothing: nothing can fail (see runStrace)
 	cm := cmds[c.Idx%len(cmds)]
 	n := []int{1, 3, 20, 200, 3000}[(c.Idx/len(cmds))%5]
 	in := writeInput(c, n, cm.fq)
@@ -381,7 +390,7 @@ func runStraceClose(c *core.Ctx) {
 		return
 	}
 	cmds := e2eCmds()
-	cmds = append(cmds[:3], cmds[4:]...) // obicsv ignores -o (see runDevFull)
+	cmds = append(cmds[:3], cmds[4:len(cmds)-1]...) // obicsv ignores -o (see runDevFull); no record, no output stream
 	cmds = append(cmds, e2eCmd{"json-gz", "obiconvert", []string{"--json-output", "-Z"}, false}, e2eCmd{"fastq-gz", "obiconvert", []string{"--fastq-output", "-Z"}, true})
 	cm := cmds[c.Idx%len(cmds)]
 	n := []int{1, 3, 30, 400, 3000}[(c.Idx/len(cmds))%5]
@@ -430,6 +439,60 @@ func runStraceClose(c *core.Ctx) {
 	}
 }
 
+// runFifo: the output file is a named pipe whose reader goes away after a few bytes (`-o >(head -c 100)`):
+// the writes fail with EPIPE once the pipe is full; the command must not exit 0.
+func runFifo(c *core.Ctx) {
+	cmds := e2eCmds()
+	cmds = append(cmds[:3], cmds[4:7]...) // obicsv ignores -o; the empty-result command writes nothing
+	cm := cmds[c.Idx%len(cmds)]
+	n := 6000 + c.Rng.Intn(3000) // far more output than a pipe buffer (64 KiB) holds
+	in := writeInput(c, n, cm.fq)
+	defer os.Remove(in)
+	fifo := filepath.Join(c.Dir, fmt.Sprintf("fifo-%d", c.Idx))
+	if err := syscall.Mkfifo(fifo, 0o600); err != nil {
+		c.Inconclusive("cannot create a named pipe here: " + err.Error())
+		return
+	}
+	defer os.Remove(fifo)
+	keep := []int{0, 1, 100, 5000}[c.Rng.Intn(4)]
+	readerDone := make(chan int64, 1)
+	go func() {
+		f, err := os.OpenFile(fifo, os.O_RDONLY, 0)
+		if err != nil {
+			readerDone <- -1
+			return
+		}
+		nr, _ := io.CopyN(io.Discard, f, int64(keep))
+		f.Close()
+		readerDone <- nr
+	}()
+	args := append([]string{"--no-progressbar", "--max-cpu", fmt.Sprint(1 + c.Rng.Intn(4))}, cm.args...)
+	args = append(args, "-o", fifo, in)
+	res := cmdx.Run(filepath.Join(c.BinDir, cm.bin), args, cmdx.Opt{Timeout: 120 * time.Second})
+	var got int64 = -2
+	select {
+	case got = <-readerDone:
+	case <-time.After(5 * time.Second):
+		// the command never opened the pipe: unblock the reader
+		if f, err := os.OpenFile(fifo, os.O_WRONLY|syscall.O_NONBLOCK, 0); err == nil {
+			f.Close()
+		}
+	}
+	c.Count("evaluations", 1)
+	det := map[string]any{"command": cm.bin, "args": args, "records": n, "reader_kept_bytes": keep, "reader_read": got, "exit": res.Exit, "stderr": cmdx.Tail(res.Stderr, 600)}
+	if res.TimedOut {
+		c.Inconclusive("watchdog on a command writing to a named pipe")
+		return
+	}
+	c.Key("fifo/%s/%d", cm.name, keep)
+	if c.Idx < 2 {
+		c.Sample(det)
+	}
+	if res.Exit == 0 {
+		c.Violate("exit0:closed-pipe:"+cm.name, "the command exits 0 although the reader of its output pipe went away long before the end of the output (EPIPE)", det)
+	}
+}
+
 func init() {
 	core.Extra["c18fault"] = faultMain
 	var subs []core.Sub
@@ -440,6 +503,7 @@ func init() {
 	subs = append(subs,
 		core.Sub{Name: "e2e-devfull", N: core.Const(25, 100), Run: runDevFull},
 		core.Sub{Name: "e2e-strace", N: core.Const(10, 40), Run: runStrace},
+		core.Sub{Name: "e2e-fifo", N: core.Const(7, 42), Run: runFifo},
 		core.Sub{Name: "e2e-strace-close", N: core.Const(12, 60), Run: runStraceClose},
 	)
 	core.Register(&core.Property{
@@ -449,7 +513,7 @@ func init() {
 			"distinct_nontrivial = distinct (writer, fault kind, size class, compression, phase) classes in which a refusal was actually delivered + distinct (command, mode, size) / (command, size, N) end-to-end runs in which the fault was effective",
 		Assume:        []string{"helper process = real writer + faulty io.WriteCloser + obiiter.WaitForLastPipe, nothing else", "e2e: /dev/full returns ENOSPC on every write; strace -e inject fails exactly the N-th write(2) of each thread on the output path"},
 		Subs:          subs,
-		Cmds:          []string{"obiconvert", "obicsv"},
+		Cmds:          []string{"obiconvert", "obicsv", "obigrep"},
 		MinNontrivial: 20,
 	})
 }
